@@ -71,7 +71,15 @@ func runC15(r *fw.Runner) {
 }
 
 func payloadFor(r *fw.Rand) ([]byte, string) {
-	switch r.Intn(5) {
+	switch r.Intn(7) {
+	case 5:
+		// JSON text as callers write it (members in any order, blanks, escapes, a trailing line feed): a payload is a byte string, and
+		// comes back as the byte string it was
+		obj := gen.RandObject(r, 2)
+		obj["b"], obj["a"], obj["n"] = 1, "\u0041", 1.0
+		return append(gen.Spell(r, oracle.MustGeneric(obj), gen.AllSpell), fw.Pick(r, []string{"", "\n", " ", "\r\n"})...), "json-not-canonical"
+	case 6:
+		return []byte(fw.Pick(r, []string{"{ \"b\" : 1 , \"a\" : 2 }", "{\"z\":1.0,\"a\":\"\\u0041\"}\n", "[ 3, 2, 1 ]", "{not json", "{\"a\":1}{\"a\":2}", " {\"a\":1}"})), "json-like-text"
 	case 0:
 		return r.Bytes(1), "1-byte"
 	case 1:
